@@ -451,19 +451,22 @@ func gen(r *rand.Rand, idx int, tier string) Input {
 		x := r.Intn(100)
 		switch {
 		case holding > 0:
-			// inside a hold window: client operations only (never Delete: see the report), then release
+			// inside a hold window: client operations only, then release
 			holding--
 			if holding == 0 {
 				in.Ops = append(in.Ops, Op{Op: "release"})
 				continue
 			}
-			switch r.Intn(5) {
+			switch r.Intn(6) {
 			case 0:
 				in.Ops = append(in.Ops, Op{Op: "put", Key: k, Val: val})
 			case 1:
 				in.Ops = append(in.Ops, Op{Op: "mutate", Key: k, Val: val})
 			case 2:
 				in.Ops = append(in.Ops, Op{Op: "poke", Key: k, Val: val})
+			case 3:
+				// a Delete overlapping the held save: the save lands afterwards and the key is readable again
+				in.Ops = append(in.Ops, Op{Op: "delete", Key: k})
 			default:
 				in.Ops = append(in.Ops, Op{Op: "read", Key: k})
 			}
